@@ -19,11 +19,19 @@ HARNESSES = [
          unwind=513, malloc_fail=True, timeout=600, weight=6,
          nochecks=["--conversion-check"],
          cases=[dict(id="hdr512", tier="quick")]),
+    dict(name="record_to_memory", file="record_to_memory.c", label="proved",
+         malloc_fail=True, flags=["--memory-leak-check", "--unsigned-overflow-check"],
+         unwind=2, timeout=600,
+         cases=[dict(id="all", tier="quick")]),
+    dict(name="new_sparse", file="new_sparse.c", label="proved", defines=CT,
+         loops=["decode", "read_gnu_new_sparse"], fp={"get_filename": "env_get_filename"},
+         timeout=900, weight=5,
+         cases=[dict(id="unbounded", tier="quick")]),
     dict(name="read_header", file="read_header.c", label="bounded(header records per call <= 3)",
          defines=CT, unwind=513, malloc_fail=True, timeout=900, weight=7,
          nochecks=["--conversion-check"],
-         cases=[dict(id="rec2", defines={"MAXREC": 2}, tier="quick"),
-                dict(id="rec3", defines={"MAXREC": 3}, tier="thorough")]),
+         cases=[dict(id="rec2", defines={"MAXREC": 2}, unwindset=["read_header.0:3"], tier="quick"),
+                dict(id="rec3", defines={"MAXREC": 3}, unwindset=["read_header.0:4"], tier="thorough")]),
     dict(name="hardlink", file="hardlink.c", label="bounded(link graph nodes <= 4)",
          timeout=900, weight=8,
          cases=[dict(id="n2", defines={"NODES": 2}, unwind=6, tier="quick"),
